@@ -235,8 +235,19 @@ def run_case(spec):
                     "billing %s: monthly NRMSE against the generating curve is %.3f (> 0.05): the billing fit regresses daily temperatures on the period's mean daily usage, "
                     "which flattens the curve" % (label, nrmse), nrmse=nrmse, **tag)
             else:
-                add("not-recovered:%s:%s:%s" % (label, prof, kind), "%s normalised RMSE against the generating curve is %.3f (> 0.05); inside fitted ranges %.3f" % (label, nrmse, nrmse_in),
-                    nrmse=nrmse, nrmse_inside=nrmse_in, **tag)
+                # recorded mechanism (deterministic classifier on the witness): an unsplit one-sided fit under the legacy profile whose stored slope
+                # is more than 5% off the generating slope although the noise is <= 1% (steep corner of the family)
+                subs_ = list(m.params.submodels.values())
+                c_ = subs_[0].coefficients if len(subs_) == 1 else None
+                slope_fit = None if c_ is None else (abs(c_.cdd_beta) if kind == "cooling" and c_.cdd_beta is not None else abs(c_.hdd_beta) if kind == "heating" and c_.hdd_beta is not None else None)
+                slope_true = p["cs"] if kind == "cooling" else p["hs"] if kind == "heating" else None
+                if prof == "legacy" and slope_fit is not None and slope_true and tag["types"] in (["tidd_cdd"], ["hdd_tidd"]) and abs(slope_fit - slope_true) > 0.05 * slope_true \
+                        and nrmse <= 0.10 and abs(float(c_.cdd_bp if kind == "cooling" else c_.hdd_bp) - (p["cb"] if kind == "cooling" else p["hb"])) <= 2.0:        # marginal miss, balance point about right: nothing else is attributed to it
+                    add("not-recovered:legacy-unsplit-one-sided-fit-misestimates-the-slope", "%s NRMSE %.3f: the legacy fit stores a %s slope of %.3f for a generating slope of %.3f (noise %.4f); its own CVRMSE is %.3f" % (
+                        label, nrmse, kind, slope_fit, slope_true, noise, float(m.error.get("CVRMSE", float("nan")))), nrmse=nrmse, **tag)
+                else:
+                    add("not-recovered:%s:%s:%s" % (label, prof, kind), "%s normalised RMSE against the generating curve is %.3f (> 0.05); inside fitted ranges %.3f" % (label, nrmse, nrmse_in),
+                        nrmse=nrmse, nrmse_inside=nrmse_in, **tag)
         # absent loads
         use = float(np.nansum(pred))
         for load, present in (("heating_load", kind in ("both", "heating")), ("cooling_load", kind in ("both", "cooling"))):
